@@ -113,8 +113,9 @@ def run(tier, seed):
     bounded_lines, step_lines = [], []
     progs = corr.split_programs(base)
     for n, pl in progs.items():
-        ks[n] = 1 + rng.below(6)
-        ns[n] = 2 + rng.below(8)
+        # bounds include the corner 0 (no execution at all / one empty execution); forced for the first programs
+        ks[n] = 0 if len(ks) < 6 else rng.below(7)
+        ns[n] = 0 if len(ns) < 6 else rng.below(10)
         bounded_lines += with_run(pl, f"dfs:{ks[n]}", suffix="_k")
         # (programs that can panic are left out of the step-bound stream: an execution abandoned in the middle of a
         # panic leaks the OS thread's panic count into the following ones — known finding F19, decided by C14)
